@@ -25,6 +25,10 @@ fn mk(t: &T) -> Individual<TagP> {
 struct Outcome {
     result: Result<Result<(), String>, String>,
     stack: Vec<Vec<T>>, // bottom .. top
+    /// the operator ran inside scopes opened over the state that holds the population stack
+    scopes: usize,
+    /// afterwards that state had no population stack any more
+    stack_lost: bool,
 }
 
 fn apply(comp: &dyn Component<TagP>, below: &[T], source: &[T], seed: u64) -> Outcome {
@@ -34,16 +38,31 @@ fn apply(comp: &dyn Component<TagP>, below: &[T], source: &[T], seed: u64) -> Ou
     p.push(source.iter().map(mk).collect());
     st.insert(p);
     st.insert(Random::new(seed));
-    let result = catch(|| comp.execute(&TagP, &mut st).map_err(|e| format!("{e:#}")));
-    let pops = st.populations();
+    // by seed: executed on the state itself, or from inside one / two scopes opened over it (as in a Scope of a configuration):
+    // the population stack stays where it is
+    let scopes = (seed % 3) as usize;
+    fn nested(comp: &dyn Component<TagP>, st: &mut State<TagP>, depth: usize) -> mahf::ExecResult<()> {
+        if depth == 0 {
+            comp.execute(&TagP, st)
+        } else {
+            st.with_inner_state(|inner| nested(comp, inner, depth - 1)).map(|_| ())
+        }
+    }
+    let result = catch(|| nested(comp, &mut st, scopes).map_err(|e| format!("{e:#}")));
     let mut stack = Vec::new();
-    let mut d = 0;
-    while let Some(pop) = pops.try_peek(d) {
-        stack.push(pop.iter().map(view).collect());
-        d += 1;
+    let mut stack_lost = false;
+    match st.try_borrow::<Populations<TagP>>() {
+        Ok(pops) => {
+            let mut d = 0;
+            while let Some(pop) = pops.try_peek(d) {
+                stack.push(pop.iter().map(view).collect());
+                d += 1;
+            }
+        }
+        Err(_) => stack_lost = true,
     }
     stack.reverse();
-    Outcome { result, stack }
+    Outcome { result, stack, scopes, stack_lost }
 }
 
 #[derive(Clone, Debug)]
@@ -67,6 +86,10 @@ fn judge(rep: &Reporter, name: &str, params: &str, below: &[T], source: &[T], se
     rep.case();
     let ctx = || json!({"operator": name, "params": params, "source": source.iter().map(|t| (t.0, val(t))).collect::<Vec<_>>(), "seed": seed});
     let size_class = if source.is_empty() { "empty" } else if source.len() == 1 { "single" } else { "many" };
+    if out.stack_lost {
+        rep.violation(&format!("{name}:population-stack-gone-from-the-state-that-held-it"), json!({"case": ctx(), "scopes_between_the_stack_and_the_operator": out.scopes, "result": format!("{:?}", out.result)}));
+        return None;
+    }
     match (&out.result, expect) {
         (Err(p), _) => {
             rep.violation(&format!("{name}:panic:{}", if matches!(expect, Expect::Err) { "on-documented-unusable-input" } else { "on-valid-input" }), json!({"case": ctx(), "panic": p}));
@@ -163,7 +186,7 @@ fn populations(rng: &mut SplitMix64, n_random: usize) -> Vec<Vec<T>> {
 
 fn main() {
     let rep = Reporter::from_args("C11");
-    rep.rule("every selection component executed on prepared two-population stacks of uniquely tagged individuals (sizes 0..8, duplicate/tied/negative/zero/infinite objective values) x requested counts {0,1,size-1,size,size+3} x seeds: stack below and source untouched (also after an error), exactly one population pushed, members are exact copies, count/distinctness as requested, documented unusable inputs give Err (never a panic); helper laws (proportional_weights antitone and >= offset, objective_bounds, reverse_rank monotone); selection pressure: per-pair frequency comparison over N draws with a Hoeffding margin, tournament over the whole population returns a best individual; DE selections: length and block layout. distinct_nontrivial = distinct (operator, parameters, population) cells");
+    rep.rule("every selection component executed - directly or from inside one or two scopes opened over the state - on prepared two-population stacks of uniquely tagged individuals (sizes 0..8, duplicate/tied/negative/zero/infinite objective values) x requested counts {0,1,size-1,size,size+3} x seeds: stack below and source untouched (also after an error), exactly one population pushed, members are exact copies, count/distinctness as requested, documented unusable inputs give Err (never a panic); helper laws (proportional_weights antitone and >= offset, objective_bounds, reverse_rank monotone); selection pressure: per-pair frequency comparison over N draws with a Hoeffding margin, tournament over the whole population returns a best individual; DE selections: length and block layout. distinct_nontrivial = distinct (operator, parameters, population) cells");
     rep.assume("inputs that are neither valid nor documented as errors (e.g. FullyRandom on an empty population, tournament size 0) are not judged; frequency margin 2*sqrt(ln(2/1e-10)/(2N))");
     let mut rng = SplitMix64::new(rep.seed).fork(0xC11);
     let pops = populations(&mut rng, rep.tier.pick(300, 8000));
